@@ -746,3 +746,45 @@ def glob_pattern(w, repo):
         fnref = importlib.util.module_from_spec(spec); spec.loader.exec_module(fnref)
         want = sorted(n for n in names if fnref.fnmatch_ref(pat, n))
         return (got != want), "find . -name %r over %r selected %r, fnmatch reference %r" % (pat, sorted(names), got, want)
+
+
+def replace_cli(w, repo):
+    """scenario battery for xargs -I / -i / --replace: one run per line, textual replacement, empty input, option precedence"""
+    if not build(repo):
+        return None, "build failed"
+    res = []
+    with Sandbox() as d:
+        rec = os.path.join(d, "rec.sh")
+        open(rec, "w").write('#!/bin/sh\nfor a in "$@"; do printf "<%s>" "$a" >> "$REC_LOG"; done; echo >> "$REC_LOG"\ncase "$1" in *stop*) exit 255;; *fail*) exit 3;; esac\nexit 0\n')
+        os.chmod(rec, 0o755)
+        log = os.path.join(d, "rec.log")
+
+        def go(opts, args, inp):
+            open(log, "w").close()
+            rc, out, err = run([xargs_bin(repo)] + opts + [rec] + args, cwd=d, inp=inp, env=dict(os.environ, REC_LOG=log))
+            return rc, open(log).read().splitlines()
+        kind = (w.get("kind") or "").split("/")[0]
+        for opts in (["-I{}"], ["-i"], ["--replace"], ["-I{}", "-r"]) if kind != "normalize_options" else ():
+            rc, calls = go(opts, ["x{}y"], b"")
+            res.append(("%s on empty input: rc=%d calls=%r" % (" ".join(opts), rc, calls), rc == 0 and calls == []))
+        if kind != "normalize_options":
+            rc, calls = go(["-I{}"], ["x{}y"], b"\n\n")
+            res.append(("-I{} on blank lines only: rc=%d calls=%r" % (rc, calls), rc == 0 and calls == []))
+        rc, calls = go(["-I{}"], ["a{}b", "{}{}", "plain", "-{}"], b"l 1\n{}\n\nX\n")
+        want = ["<a%sb><%s%s><plain><-%s>" % (l, l, l, l) for l in ("l 1", "{}", "X")]
+        res.append(("-I{} argv per line %r" % calls, calls == want and rc == 0))
+        rc, calls = go(["-IX"], ["aXb", "{}"], b"X X\n")
+        res.append(("-IX with X in the line %r" % calls, calls == ["<aX Xb><{}>"]))
+        rc, calls = go(["--replace=%%"], ["a%%", "%"], b"p q\n")
+        res.append(("--replace=%%%% %r" % calls, calls == ["<ap q><%>"]))
+        rc, calls = go(["-I{}"], ["{}"], b"one\nstop\nthree\n")
+        res.append(("exit 255 stops at once: rc=%d calls=%r" % (rc, calls), rc == 124 and calls == ["<one>", "<stop>"]))
+        rc, calls = go(["-I{}"], ["{}"], b"fail\ntwo\n")
+        res.append(("exit 3 goes on, status 123: rc=%d calls=%r" % (rc, calls), rc == 123 and calls == ["<fail>", "<two>"]))
+        I_MODE, N2, L2 = ["<xa by>", "<xc dy>"], ["<x{}y><a><b>", "<x{}y><c><d>"], ["<x{}y><a><b><c><d>"]
+        for opts, want in () if kind == "pipeline" else ((["-n2", "-I{}"], I_MODE), (["-I{}", "-n2"], N2), (["-L2", "-I{}"], I_MODE), (["-I{}", "-L2"], L2), (["-n2", "-i"], I_MODE), (["-i", "-n2"], N2),
+                           (["-L2", "--replace"], I_MODE), (["--replace", "-L2"], L2), (["-n2", "-i={}"], I_MODE), (["-n1", "-I{}"], I_MODE), (["-I{}", "-n1"], I_MODE),
+                           (["-I{}", "-L1"], ["<x{}y><a><b>", "<x{}y><c><d>"]), (["-L1", "-n2", "-I{}"], I_MODE), (["-I{}", "-L1", "-n2"], N2), (["-n2", "-I{}", "-L2"], L2)):
+            rc, calls = go(opts, ["x{}y"], b"a b\nc d\n")
+            res.append(("%s: %r" % (" ".join(opts), calls), calls == want and rc == 0))
+    return _battery(res)
